@@ -632,4 +632,9 @@ def verify_function(repo, registry, models_factory, c, base_axioms, options=None
             rep.unsupported.append(r.error)
         rep.obligations.extend(r.state.obligations)
         # reachability witness: every completed path is feasible by construction (choices are checked)
+    # vacuity guard: a function whose every explored path ends in an exception satisfies all its normal-path clauses
+    # vacuously; unless the contract says the function never returns normally, that is undecided, not held
+    if results and not getattr(c, 'never_returns', False) and not any(
+            k in rep.outcomes for k in ('return', 'end', 'unsupported')):
+        rep.unsupported.append('no explored path returns normally (vacuity guard): ' + str(rep.outcomes))
     return rep
